@@ -175,6 +175,8 @@ def run_check(prop, tier, seed, t0, a):
                 violations.append((ident, p, ' no-failing-input-found'))
             else:
                 undecided.append(f'{ident}: failed ({r["tag"]}, in_lock={in_lock}) without real failing input: {r["detail"]}')
+        if out.get('domain_error'):
+            failures.append(f'{key}: bounded domain crashed: {out["domain_error"]}')
         dom = out.get('domain')
         if dom:
             domain_evals += dom['evaluated']
